@@ -576,7 +576,26 @@ func c17Run(ctx *Ctx, t *tape.Tape) *report.Violation {
 	default: // c17Twice
 		prog := world.GenProgram(t, world.GenCfg{MaxItems: 8, Abstract: true, EncOnly: true, Observers: true})
 		var e1, e2 encode.Encoder
-		world.Run(world.Target{Dst: &e1, Enc: &e1}, prog)
+		// e1 is additionally asked for Bytes twice in a row at a drawn point of
+		// the program (two thirds of the time inside an open path, where
+		// run-length arguments are pending): the two results must be equal, and
+		// asking must not change what the remaining calls produce.
+		mid := biasedCut(t, prog)
+		world.Run(world.Target{Dst: &e1, Enc: &e1}, prog[:mid])
+		{
+			m1, merr1 := e1.Bytes()
+			mk := append([]byte(nil), m1...)
+			m2, merr2 := e1.Bytes()
+			if (merr1 != nil) != (merr2 != nil) || !bytes.Equal(mk, m2) {
+				v := viol("C17", "bytes-twice", "two consecutive Bytes calls after call %d of %d differ: %d bytes err=%v, then %d bytes err=%v", mid, len(prog), len(mk), merr1, len(m2), merr2)
+				v.Trace = world.FormatOps(prog, 40)
+				return sig(v)
+			}
+			if st != nil && openPathAt(prog, mid) {
+				st.Add("probe_bytes_twice_inside_open_path", 1)
+			}
+		}
+		world.Run(world.Target{Dst: &e1, Enc: &e1}, prog[mid:])
 		world.Run(world.Target{Dst: &e2, Enc: &e2}, prog)
 		// Bytes twice: equal contents, and the first result is not altered by the second call
 		first, err1 := e1.Bytes()
@@ -594,7 +613,7 @@ func c17Run(ctx *Ctx, t *tape.Tape) *report.Violation {
 		}
 		o1, o2 := encOutcomeOf(&e1), encOutcomeOf(&e2)
 		if d := o1.diff(o2); d != "" {
-			v := viol("C17", "twice", "the same calls on two fresh Encoders give different results (the first was asked for Bytes twice before): %s", d)
+			v := viol("C17", "twice", "the same calls on two fresh Encoders give different results (the first was also asked for Bytes after call %d and at the end): %s", mid, d)
 			v.Trace = world.FormatOps(prog, 40)
 			return sig(v)
 		}
@@ -668,6 +687,7 @@ func init() {
 						"second use drew something":                        s.Counters["probe_second_use_drew_something"],
 						"second use painted a gradient":                    s.Counters["probe_second_use_painted_gradient"],
 						"more than one abort/restart round":                s.Counters["probe_multiple_abort_restart_rounds"],
+						"Bytes asked twice inside an open path":            s.Counters["probe_bytes_twice_inside_open_path"],
 						"vec second use left pixels":                       s.Counters["probe_vec_second_use_left_pixels"],
 						"vec runs skipped (coordinates not moderate)":      s.Counters["vec_skipped_untame"],
 						"vec back end panicked in the first use (skipped)": s.Counters["vec_backend_panicked_in_first_use"],
